@@ -368,7 +368,7 @@ pub fn run(prop: &str, tier: &str, out: Option<&Path>) -> i32 {
                     blocks: prop == "C04",
                     ..Default::default()
                 },
-                max_secs: if thorough { 900.0 } else { 40.0 },
+                max_secs: if thorough { 90.0 } else { 40.0 },
             };
             if prop == "C02" || prop == "C14" {
                 run_seq(prop, tier, cfgs, params, seq_assume, out)
@@ -409,7 +409,7 @@ pub fn run(prop: &str, tier: &str, out: Option<&Path>) -> i32 {
                     bounds: true,
                     ..Default::default()
                 },
-                max_secs: if thorough { 300.0 } else { 15.0 },
+                max_secs: if thorough { 120.0 } else { 15.0 },
             };
             for flush_start in [false, true] {
                 params.probes.flush_start = flush_start;
@@ -485,7 +485,7 @@ pub fn run(prop: &str, tier: &str, out: Option<&Path>) -> i32 {
                     c07_depth2: thorough,
                     ..Default::default()
                 },
-                max_secs: if thorough { 600.0 } else { 30.0 },
+                max_secs: if thorough { 200.0 } else { 30.0 },
             };
             run_seq(prop, tier, cfgs, params, seq_assume, out)
         }
@@ -518,7 +518,7 @@ pub fn run(prop: &str, tier: &str, out: Option<&Path>) -> i32 {
                     c10: true,
                     ..Default::default()
                 },
-                max_secs: if thorough { 600.0 } else { 30.0 },
+                max_secs: if thorough { 200.0 } else { 30.0 },
             };
             let scs = crate::scenarios::generate(thorough as usize);
             let mut opts = ilv_opts(thorough);
@@ -549,7 +549,7 @@ pub fn run(prop: &str, tier: &str, out: Option<&Path>) -> i32 {
                     c15_fill: true,
                     ..Default::default()
                 },
-                max_secs: if thorough { 900.0 } else { 40.0 },
+                max_secs: if thorough { 300.0 } else { 40.0 },
             };
             run_seq(prop, tier, cfgs, params, seq_assume, out)
         }
@@ -585,7 +585,7 @@ pub fn run(prop: &str, tier: &str, out: Option<&Path>) -> i32 {
                     c05: true,
                     ..Default::default()
                 },
-                max_secs: if thorough { 600.0 } else { 25.0 },
+                max_secs: if thorough { 200.0 } else { 25.0 },
             };
             let scs = crate::scenarios::generate(thorough as usize);
             let mut opts = ilv_opts(thorough);
@@ -607,7 +607,7 @@ pub fn run(prop: &str, tier: &str, out: Option<&Path>) -> i32 {
                 depth: if thorough { 3 } else { 2 },
                 max_states: if thorough { 300_000 } else { 50_000 },
                 probes: Probes::default(),
-                max_secs: if thorough { 300.0 } else { 20.0 },
+                max_secs: if thorough { 120.0 } else { 20.0 },
             };
             let scs = crate::scenarios::generate(thorough as usize);
             run_seq_ilv(prop, tier, cfgs, params, scs, ilv_opts(thorough), seq_assume, out)
@@ -651,7 +651,7 @@ pub fn run(prop: &str, tier: &str, out: Option<&Path>) -> i32 {
                 },
                 max_states: if thorough { 3_000_000 } else { 250_000 },
                 probes: Probes::default(),
-                max_secs: if thorough { 900.0 } else { 25.0 },
+                max_secs: if thorough { 40.0 } else { 25.0 },
             };
             let mut f0 = frames.clone();
             f0.insert(0, 0);
